@@ -611,21 +611,17 @@ class VisitConstant:
         return isinstance(node, ast.Constant)
 
     def ensures_collects_exactly_the_numeric_literals(self, node, old):
-        # property text: "nothing that is not a numeric literal (booleans, strings ...) is ever reported".
-        # EXPECTED TO FAIL (known finding C02-python-bool-literal): isinstance(True, int) holds in Python
+        # property text: "nothing that is not a numeric literal (booleans, strings ...) is ever reported": a Constant is
+        # recorded exactly once -- with its parent from the parent map, its own value and its own line -- iff its value
+        # is a number that is not a bool (isinstance(True, int) holds in Python; repaired by the fix for the former
+        # finding C02-python-bool-literal)
         return self.numeric_literals == old.self.numeric_literals + (
             [(node, pm_get(self.parent_map, node), node.value, node.lineno)] if is_numeric_literal_value(node.value) else [])
 
-    def ensures_collects_exactly_int_valued_constants_adjusted(self, node, old):
-        # finding-adjusted: every Constant whose value is an instance of int (bool included) is recorded exactly once,
-        # with its parent from the parent map, its own value and its own line; nothing else is recorded
-        return self.numeric_literals == old.self.numeric_literals + (
-            [(node, pm_get(self.parent_map, node), node.value, node.lineno)] if isinstance(node.value, int) else [])
-
 
 def py_collected(n):
-    """What visit_Constant records (finding-adjusted: int-valued Constant nodes, bools included)."""
-    return isinstance(n, ast.Constant) and isinstance(n.value, int)
+    """What visit_Constant records: Constant nodes whose value is a number and not a bool (ints in this model)."""
+    return isinstance(n, ast.Constant) and isinstance(n.value, int) and not isinstance(n.value, bool)
 
 
 def py_lits_of(tree):
@@ -1646,7 +1642,8 @@ def _gen_py_lit(g):
     import ast as _a
     tree = _a.parse(g.rng.choice(_PY_SNIPPETS))
     parents = {c: p for p in _a.walk(tree) for c in _a.iter_child_nodes(p)}
-    nodes = [n for n in _a.walk(tree) if isinstance(n, _a.Constant) and isinstance(n.value, int)]
+    nodes = [n for n in _a.walk(tree) if isinstance(n, _a.Constant) and isinstance(n.value, int)
+             and (not isinstance(n.value, bool) or g.rng.random() < 0.3)]
     n = g.rng.choice(nodes)
     return (n, parents.get(n), n.value, n.lineno)
 
